@@ -60,7 +60,8 @@ func (vc *VC) execAppend(x *ssa.Call, pc string, st *State) {
 	// appending nothing to a nil slice yields nil (cap 0, len 0): in-place branch covers it (0 <= 0).
 	res := ite(inPlace, sx("mk_slice", sx("s_arr", s), sx("s_off", s), newLen, sx("s_cap", s)), sx("mk_slice", id, "0", newLen, newCap))
 	r := vc.setVal(x, res)
-	_ = r
+	// element addresses of the result in terms of the operand (keeps quantified facts about s[i] applicable)
+	vc.assume(and(pc, inPlace), fmt.Sprintf("(forall ((i!e Int)) (! (= (elemloc %s i!e) (elemloc %s i!e)) :pattern ((elemloc %s i!e))))", r, s, r))
 	for _, lf := range vc.enc.Leaves(et) {
 		h := lf.heap
 		old := vc.heapGet(pre, h)
